@@ -21,7 +21,8 @@ def accSt (s : St) (t : Txn) (a : UndoAcc) : St :=
 
 /-- the accumulator the loop starts with -/
 def acc0 (s : St) (t : Txn) : UndoAcc :=
-  { files := s.files, dirty := s.dirty, staged := t.staged, evs := [], failures := false, broken := false }
+  { files := s.files, dirty := s.dirty, staged := t.staged, evs := [], failures := false, broken := false,
+    seen := [] }
 
 theorem undoRec_oid (h : List Rec) (r : Rec) (tid : Nat) : (undoRec h r tid).oid = r.oid := by
   unfold undoRec
@@ -90,25 +91,32 @@ theorem inv_acc_fail {s : St} {t : Txn} {a a' : UndoAcc} (h : Inv (accSt s t a))
   · show a'.files = a.files; exact h1
   · show a'.dirty = a.dirty; exact h2
 
+theorem mem_rest {l : List Rec} {oid : Nat} {q : Rec}
+    (hq : q ∈ l.filter fun q => decide (q.oid ≠ oid)) : q ∈ l ∧ q.oid ≠ oid := by
+  have := List.mem_filter.1 hq
+  exact ⟨this.1, by simpa using this.2⟩
+
 theorem inv_undoOne {s : St} {t : Txn} (hfs : s.flavor = .fs) {a : UndoAcc}
     (h : Inv (accSt s t a)) (r : Rec) : Inv (accSt s t (undoOne s.hist t.tid a r)) := by
   have hn : (accSt s t a).txn = some (accTxn t a) := rfl
+  have hwrap : (accSt s t a).flavor = .wrap → False := by
+    intro hc; rw [accSt_flavor, hfs] at hc; cases hc
+  -- a dirty name of this transaction belongs to a staged blob record of the same oid
+  have hdirty_oid : ∀ k ∈ a.dirty, k.1 ≠ r.oid →
+      ∃ q ∈ a.staged.filter (fun q => decide (q.oid ≠ r.oid)), q.key = k ∧ q.kind = .blob := by
+    intro k hk hne
+    obtain ⟨q, hq, hqk, hqb⟩ := h.dirtyStaged _ hn k hk
+    refine ⟨q, List.mem_filter.2 ⟨hq, ?_⟩, hqk, hqb⟩
+    have : q.oid = k.1 := by rw [← hqk]; rfl
+    simpa [this] using hne
   unfold undoOne
   split
   · exact h
   · split
     · exact inv_acc_fail h rfl rfl rfl (by simp)
-    · rename_i hns
-      have hnst : ∀ q ∈ a.staged, q.oid ≠ r.oid := by
-        intro q hq he
-        apply hns
-        simp only [List.any_eq_true]
-        exact ⟨q, hq, by simpa using he⟩
-      split
+    · split
       · exact inv_acc_fail h rfl rfl rfl (by simp)
       · simp only
-        have hwrap : (accSt s t a).flavor = .wrap → False := by
-          intro hc; rw [accSt_flavor, hfs] at hc; cases hc
         split
         · -- the previous revision is a blob: copy its file
           rename_i hkind
@@ -120,13 +128,14 @@ theorem inv_undoOne {s : St} {t : Txn} (hfs : s.flavor = .fs) {a : UndoAcc}
           · exact inv_acc_fail h rfl rfl rfl (by simp)
           · rename_i b hb
             have key := inv_update h hn (aset a.files (r.oid, t.tid) b) ((r.oid, t.tid) :: a.dirty)
-              (accTxn t { a with staged := undoRec s.hist r t.tid :: a.staged })
+              (accTxn t { a with staged := undoRec s.hist r t.tid
+                            :: a.staged.filter fun q => decide (q.oid ≠ r.oid) })
               rfl ?_ ?_ ?_ ?_ ?_ ?_ ?_ ?_
             · exact key.congr rfl rfl rfl rfl rfl
             · intro q hq
               rcases List.mem_cons.1 hq with hq | hq
               · subst hq; exact undoRec_tid _ _ _
-              · exact h.stagedTid _ hn q hq
+              · exact h.stagedTid _ hn q (mem_rest hq).1
             · intro k hk
               rcases List.mem_cons.1 hk with hk | hk
               · subst hk; rfl
@@ -145,15 +154,22 @@ theorem inv_undoOne {s : St} {t : Txn} (hfs : s.flavor = .fs) {a : UndoAcc}
               · simp only [e, if_false, List.mem_cons, false_or]
                 exact h.own_file hn k hk
             · intro k hk
-              rcases List.mem_cons.1 hk with hk | hk
-              · subst hk
-                exact ⟨_, List.mem_cons_self, undoRec_key _ _ _, hkind⟩
-              · obtain ⟨q, hq, hk'⟩ := h.dirtyStaged _ hn k hk
-                exact ⟨q, List.mem_cons_of_mem _ hq, hk'⟩
+              by_cases e : k.1 = r.oid
+              · refine ⟨_, List.mem_cons_self, ?_, hkind⟩
+                rw [undoRec_key]
+                have hk2 : k.2 = t.tid := by
+                  rcases List.mem_cons.1 hk with hk | hk
+                  · subst hk; rfl
+                  · exact h.dirty_tid hn k hk
+                rw [← e, ← hk2]
+              · rcases List.mem_cons.1 hk with hk | hk
+                · subst hk; exact absurd rfl e
+                · obtain ⟨q, hq, hk'⟩ := hdirty_oid k hk e
+                  exact ⟨q, List.mem_cons_of_mem _ hq, hk'⟩
             · intro hf q hq hbl
               rcases List.mem_cons.1 hq with hq | hq
               · subst hq; rw [undoRec_key]; exact List.mem_cons_self
-              · exact List.mem_cons_of_mem _ (h.stagedFile _ hn hf q hq hbl)
+              · exact List.mem_cons_of_mem _ (h.stagedFile _ hn hf q (mem_rest hq).1 hbl)
             · intro hf q hq hbl
               rcases List.mem_cons.1 hq with hq | hq
               · subst hq
@@ -164,9 +180,9 @@ theorem inv_undoOne {s : St} {t : Txn} (hfs : s.flavor = .fs) {a : UndoAcc}
                   intro e; have := congrArg Prod.snd e; simp only at this; omega
                 simp only [e1, if_false, if_true]
                 rw [← hsrc]; exact hb
-              · obtain ⟨hle, heq⟩ := h.srcStaged _ hn hf q hq hbl
+              · obtain ⟨hq', hne⟩ := mem_rest hq
+                obtain ⟨hle, heq⟩ := h.srcStaged _ hn hf q hq' hbl
                 refine ⟨hle, ?_⟩
-                have hne := hnst q hq
                 have e1 : ((q.oid, q.src) : Key) ≠ (r.oid, t.tid) := by
                   intro e; exact hne (congrArg Prod.fst e)
                 have e2 : q.key ≠ (r.oid, t.tid) := by
@@ -179,25 +195,35 @@ theorem inv_undoOne {s : St} {t : Txn} (hfs : s.flavor = .fs) {a : UndoAcc}
             · intro hw; exact (hwrap hw).elim
         all_goals
           rename_i hkind
-          have key := inv_setTxn h hn
-            (accTxn t { a with staged := undoRec s.hist r t.tid :: a.staged }) rfl ?_ ?_ ?_ ?_ ?_
-          · exact key.congr rfl rfl rfl rfl rfl
-          · intro q hq
-            rcases List.mem_cons.1 hq with hq | hq
-            · subst hq; exact undoRec_tid _ _ _
-            · exact h.stagedTid _ hn q hq
-          · intro k hk
-            obtain ⟨q, hq, hk'⟩ := h.dirtyStaged _ hn k hk
-            exact ⟨q, List.mem_cons_of_mem _ hq, hk'⟩
-          · intro hf q hq hbl
-            rcases List.mem_cons.1 hq with hq | hq
-            · subst hq; exact (hkind hbl).elim
-            · exact h.stagedFile _ hn hf q hq hbl
-          · intro hf q hq hbl
-            rcases List.mem_cons.1 hq with hq | hq
-            · subst hq; exact (hkind hbl).elim
-            · exact h.srcStaged _ hn hf q hq hbl
-          · intro hw; exact (hwrap hw).elim
+          split
+          · exact inv_acc_fail h rfl rfl rfl (by simp)
+          · rename_i hnone
+            have key := inv_setTxn h hn
+              (accTxn t { a with staged := undoRec s.hist r t.tid
+                            :: a.staged.filter fun q => decide (q.oid ≠ r.oid) }) rfl ?_ ?_ ?_ ?_ ?_
+            · exact key.congr rfl rfl rfl rfl rfl
+            · intro q hq
+              rcases List.mem_cons.1 hq with hq | hq
+              · subst hq; exact undoRec_tid _ _ _
+              · exact h.stagedTid _ hn q (mem_rest hq).1
+            · intro k hk
+              have hne : k.1 ≠ r.oid := by
+                intro e
+                have hk2 : k.2 = t.tid := h.dirty_tid hn k hk
+                have hs : (aget a.files k).isSome := (h.own_file hn k hk2).2 hk
+                have : k = (r.oid, t.tid) := by rw [← e, ← hk2]
+                rw [this, hnone] at hs; cases hs
+              obtain ⟨q, hq, hk'⟩ := hdirty_oid k hk hne
+              exact ⟨q, List.mem_cons_of_mem _ hq, hk'⟩
+            · intro hf q hq hbl
+              rcases List.mem_cons.1 hq with hq | hq
+              · subst hq; exact (hkind hbl).elim
+              · exact h.stagedFile _ hn hf q (mem_rest hq).1 hbl
+            · intro hf q hq hbl
+              rcases List.mem_cons.1 hq with hq | hq
+              · subst hq; exact (hkind hbl).elim
+              · exact h.srcStaged _ hn hf q (mem_rest hq).1 hbl
+            · intro hw; exact (hwrap hw).elim
 
 theorem inv_undoFold {s : St} {t : Txn} (hfs : s.flavor = .fs) (recs : List Rec) {a : UndoAcc}
     (h : Inv (accSt s t a)) : Inv (accSt s t (recs.foldl (undoOne s.hist t.tid) a)) := by
